@@ -152,7 +152,7 @@ def bignet_cases(tier, seed0):
         for name, ns, rx, ne in BIG_NETS:
             for spname, mk in sps:
                 for stname in ("small-int", "fractions") + (("above-100",) if tier == "thorough" else ()):
-                    if stname == "above-100" and engine == "tauleap" and name not in ("5species-6reactions", "5environments", "3environments-order3"):
+                    if stname == "above-100" and engine == "tauleap" and name not in ("5species-6reactions", "5environments"):
                         # high-order channels at hundreds of molecules per cell drive the tau-leap populations (and then
                         # the per-step Poisson means) beyond the int range within a few steps: the recorded known finding
                         continue
